@@ -31,7 +31,8 @@ RULE = ("histories = corpus + enumerated short orderings of {receive, close, pee
         "two tasks + random histories (4-14 stimuli over 4 tasks, peer text/ping/pong/close/malformed frames delivered "
         "synchronously or as queued callbacks, drop, cancel, clock advances around the heartbeat/pong/close/receive "
         "deadlines) x {server, client} x {autoclose, autoping, heartbeat, receive timeout}; every history ends with "
-        "an epilogue that lets all timers expire and then drops the connection.  Non-trivial = a close frame was "
+        "an epilogue that lets all timers expire and then drops the connection; plus an implementation-only suite with "
+        "write-side back-pressure (server, writer_limit=1, pause/resume writing).  Non-trivial = a close frame was "
         "written or a peer close was consumed; distinct by hash of (config, history, final snapshot).")
 TRUSTED = [
     "translator/gen_wssession.py (close codes, opcodes, writer closing guard, statement-order checks of close()/receive())",
@@ -48,6 +49,8 @@ ASSUMPTIONS = [
     "Liveness is bounded progress under timer fairness: an armed timer fires when the clock reaches its deadline.",
     "The application calls only receive(), close(), send_str/ping/pong; at most four concurrent tasks.",
     "Timeouts are finite and below the ceil threshold (5 s); close timeout > 0.",
+    "The model has no write-side flow control (drain() never suspends); histories that pause the transport are run on "
+    "the implementation only (oracle), not compared with the model.",
     "Model/implementation agreement is validated on the generated histories only.",
 ]
 
@@ -86,7 +89,12 @@ def _sig_client_close_timeout_restart(case, params):
             and case.get("peer_frames_after_close", 0) > 0)
 
 
+def _sig_backpressure(case, params):
+    return (case.get("kind") in ("data_after_close", "close_overrun", "receive_stuck") and "wp" in case.get("tokens", []))
+
+
 SIGNATURES = {
+    "close_under_write_backpressure": _sig_backpressure,
     "server_close_code_1000_without_peer_close": _sig_server_close_vs_receive,
     "server_cancelled_close_leaves_transport_open": _sig_server_cancel_cw,
     "client_protocol_error_code_reported": _sig_client_error_code,
@@ -160,20 +168,24 @@ def peer_bytes(tok, mask):
 # implementation driver
 
 class Cfg:
-    def __init__(self, side, autoclose=True, autoping=True, hb=None, ctmo=9, rtmo=None):
+    def __init__(self, side, autoclose=True, autoping=True, hb=None, ctmo=9, rtmo=None, wlimit=False):
         self.side, self.autoclose, self.autoping, self.hb, self.ctmo, self.rtmo = side, autoclose, autoping, hb, ctmo, rtmo
+        self.wlimit = wlimit      # server only: writer_limit=1, every frame reaches the drain check (oracle-only histories)
 
     def line(self):
         return "%s %d %d %s %d %s" % (self.side, self.autoclose, self.autoping, "-" if self.hb is None else self.hb,
                                       self.ctmo, "-" if self.rtmo is None else self.rtmo)
 
     def to_json(self):
-        return {"side": self.side, "autoclose": self.autoclose, "autoping": self.autoping, "hb": self.hb,
-                "ctmo": self.ctmo, "rtmo": self.rtmo}
+        d = {"side": self.side, "autoclose": self.autoclose, "autoping": self.autoping, "hb": self.hb,
+             "ctmo": self.ctmo, "rtmo": self.rtmo}
+        if self.wlimit:
+            d["wlimit"] = True
+        return d
 
     @staticmethod
     def from_json(d):
-        return Cfg(d["side"], d["autoclose"], d["autoping"], d["hb"], d["ctmo"], d["rtmo"])
+        return Cfg(d["side"], d["autoclose"], d["autoping"], d["hb"], d["ctmo"], d["rtmo"], d.get("wlimit", False))
 
 
 class World:
@@ -196,7 +208,8 @@ class World:
             c = world.cfg
             ws = web.WebSocketResponse(timeout=c.ctmo * UNIT, receive_timeout=None if c.rtmo is None else c.rtmo * UNIT,
                                        autoclose=c.autoclose, autoping=c.autoping,
-                                       heartbeat=None if c.hb is None else c.hb * UNIT)
+                                       heartbeat=None if c.hb is None else c.hb * UNIT,
+                                       **({"writer_limit": 1} if c.wlimit else {}))
             await ws.prepare(request)
             release = loop.create_future()
             world.created.append((ws, release))
@@ -363,6 +376,11 @@ class Session:
             loop.call_soon(self._deliver, peer_bytes(tok, self.cfg.side == "S"), tok)
         elif k == "d":
             self.tr.peer_close(None)
+        elif k == "w":
+            # write-side back-pressure (oracle-only histories; the model has no flow control)
+            if self.tr.lost_called or (tok[1] == "p") == bool(self.proto._paused):
+                return False
+            (self.proto.pause_writing if tok[1] == "p" else self.proto.resume_writing)()
         elif k == "x":
             t = self.tasks[int(tok[1:])]
             if t is not None and not t.done():
@@ -628,6 +646,28 @@ def random_cfg(rng, side):
                hb=rng.choice([None, None, 20]), ctmo=rng.choice([9, 13, 33]), rtmo=rng.choice([None, None, 7, 23]))
 
 
+def backpressure_history(rng):
+    """server, writer_limit=1, the transport pauses writing at some point: oracle-only"""
+    toks = []
+    for _ in range(rng.randint(3, 8)):
+        r = rng.random()
+        if r < 0.25:
+            toks.append(rng.choice(["wp", "wp", "wr"]))
+        elif r < 0.5:
+            toks.append("c%dk1000" % rng.choice([0, 1]))
+        elif r < 0.7:
+            toks.append("c%dst" % rng.choice([2, 3]))
+        elif r < 0.8:
+            toks.append("c0r")
+        elif r < 0.9:
+            toks.append(rng.choice(["pt", "pc4001", "pp"]))
+        else:
+            toks.append("a%d" % rng.choice([4, 12]))
+        if rng.random() < 0.6:
+            toks.append("/")
+    return toks
+
+
 def random_history(rng, cfg):
     n = rng.randint(3, 14)
     toks = []
@@ -695,7 +735,11 @@ def check_batch(ctx, exe, world, batch, suite):
     if exe is None:
         msn = [None] * len(results)       # model runner unavailable: implementation-only search
     else:
-        msn = model_snaps(exe, [(c, a) for c, a, _, _ in results])
+        idx = [i for i, (c, a, _, _) in enumerate(results) if not (c.wlimit or "wp" in a or "wr" in a)]
+        got = model_snaps(exe, [(results[i][0], results[i][1]) for i in idx])
+        msn = [None] * len(results)       # histories with back-pressure are outside the model: oracle only
+        for i, g in zip(idx, got):
+            msn[i] = g
     ran = 0
     for (cfg, applied, snaps, viol), ms in zip(results, msn):
         ran += 1
@@ -757,7 +801,7 @@ def run(ctx):
         # 2. enumerated short orderings on two tasks
         alpha = ["c0r", "c1k1001", "pc4001", "d", "x1", "x0", "a12", "pt", "qc4001", "r"]
         seps = [(1, 1, 1, 1), (0, 0, 0, 1), (1, 0, 0, 1), (0, 1, 0, 1)]
-        allseq = list(enumerated_histories(alpha, 3 if ctx.quick else 4, [s[:3] + (1,) for s in seps] if ctx.quick else seps))
+        allseq = list(enumerated_histories(alpha, 3 if ctx.quick else 4, [s[:3] + (1,) for s in seps] if ctx.quick else seps[:2]))
         # 3-sequences are prefixed with a blocked receive so that the races are reached
         batch = []
         for side in "SC":
@@ -769,7 +813,7 @@ def run(ctx):
         n = check_batch(ctx, exe, world, batch, "enumerated-orderings")
         _close(ctx, exe, "enumerated-orderings", n)
         # 3. random histories
-        nrand = 1200 if ctx.quick else 40000
+        nrand = 1200 if ctx.quick else 30000
         batch = []
         for i in range(nrand):
             cfg = random_cfg(rng, "SC"[i % 2])
@@ -778,6 +822,10 @@ def run(ctx):
         for k in range(0, len(batch), 2000):
             n += check_batch(ctx, exe, world, batch[k:k + 2000], "random-histories")
         _close(ctx, exe, "random-histories", n)
+        # 4. write-side back-pressure: outside the model, implementation-only search (no correspondence obligation)
+        bp = [(Cfg("S", ctmo=9, wlimit=True), backpressure_history(rng)) for _ in range(150 if ctx.quick else 3000)]
+        n = check_batch(ctx, None, world, bp, "backpressure-oracle-only")
+        ctx.count("suite:backpressure-oracle-only", n)
         if batch:
             ctx.sample({"suite": "random-histories", "cfg": batch[-1][0].to_json(), "tokens": batch[-1][1]})
             ctx.sample({"suite": "random-histories", "cfg": batch[0][0].to_json(), "tokens": batch[0][1]})
@@ -793,9 +841,11 @@ def replay(ctx, case):
         applied, snaps, viol, obs = run_history(world, cfg, case["tokens"])
     finally:
         world.close()
-    ms = model_snaps(exe, [(cfg, applied)])[0] if ok else []
+    outside = cfg.wlimit or "wp" in applied or "wr" in applied      # back-pressure: not in the model
+    ms = model_snaps(exe, [(cfg, applied)])[0] if (ok and not outside) else []
     want = case.get("kind")
     hits = [(k, t) for k, t, _, _ in viol if want is None or k == want]
     return {"violates": bool(hits), "why": hits[0][1] if hits else None, "all_violations": [(k, t) for k, t, _, _ in viol],
             "applied": applied, "impl": snaps, "model": ms,
-            "agree": [strip_ghost(a) for a in ms] == snaps}
+            "agree": None if outside else [strip_ghost(a) for a in ms] == snaps,
+            "note": "history uses write-side back-pressure, which the model does not cover (oracle only)" if outside else ""}
